@@ -78,7 +78,6 @@ inductive Ev
   | removed (h : Nat)
   | ranF (fid k : Nat) (added enq iter : Nat) (now : Int)
   | fin (w : Who) (e : End)
-  | failedFuture                       -- a `_discard_future_result` handle ran on a failed future
   | logged (w : Who)                   -- "Exception in callback …" record on tornado.application
   deriving Repr, DecidableEq
 
@@ -201,7 +200,7 @@ def startItem (s : Loop) : Item → Loop
     else startBody (emit s (.ranT t.h t.k t.deadline t.when s.iter s.now)) t.k
   | .fcb fid k added enq => startBody (emit s (.ranF fid k added enq s.iter s.now)) k
   | .discard ok _ =>
-    if ok then s else emit (emit s .failedFuture) (.logged .discard)
+    if ok then s else emit s (.logged .discard)
 
 /-- begin the next `_run_once`: sleep until the earliest timer if nothing is ready, move due timers, snapshot -/
 def newIteration (s : Loop) : Loop :=
